@@ -18,7 +18,8 @@ THEOREMS = ['ChamVerif.Sys.Cache.C15_crash_safe', 'ChamVerif.Sys.Cache.C15_build
             'ChamVerif.Sys.Cache.C15_key_separates_values', 'ChamVerif.Sys.Cache.utf8_prefix_free',
             'ChamVerif.Sys.Cache.C15_body_key_injective', 'ChamVerif.Sys.Cache.C15_body_key_ignore_counterexample',
             'ChamVerif.Sys.Cache.C15_body_key_tie', 'ChamVerif.Sys.Cache.C15_key_bytes_injective',
-            'ChamVerif.Sys.Cache.C15_key_bytes_old_counterexample', 'ChamVerif.Sys.Cache.C15_key_layout_tie']
+            'ChamVerif.Sys.Cache.C15_key_bytes_old_counterexample', 'ChamVerif.Sys.Cache.C15_key_layout_tie',
+            'ChamVerif.Sys.Cache.C15_key_bytes_file_injective', 'ChamVerif.Sys.Cache.C15_key_file_layout_tie']
 LEVEL_TEXT = ('Proved in Lean over the file-system step model of ModuleLoader.build/get: two writers of one entry with unique temporary names, run '
               'under any schedule and crashing at any points (arbitrary event list, no length bound), leave an entry that is absent, unchanged, '
               'or the complete module of one writer — never empty, header-only or torn (C15_crash_safe, invariant over every step); an '
@@ -260,7 +261,8 @@ for j in jobs:
         else:
             r = cls(j['body'], **kw)()
     except Exception as e:
-        r = 'ERR ' + type(e).__name__
+        # the class, and what the message says about where: the file name is compiled into the module
+        r = 'ERR ' + type(e).__name__ + ' ' + ' | '.join(l.strip() for l in str(e).split('\n') if 'Filename' in l or 'Location' in l)
     out.append(r if isinstance(r, str) else r.decode('utf-8', 'replace'))
 json.dump(out, sys.stdout)
 '''
@@ -290,6 +292,11 @@ def pairs(rng, root):
     close = ['<p>x</p>', '<p>x\ud800</p>', '<p>x\udfff</p>', '<p>x\x00</p>', '<p>x </p>', '<p>x</p>\n', '<p>\u00e9</p>', '<p>e\u0301</p>', '<p>x\ufeff</p>']
     for b1, b2 in itertools.combinations(close, 2):
         ps.append(({'body': b1, 'kw': {}}, {'body': b2, 'kw': {}}, 'body (close sources)'))
+    # XML documents keep their line ends (HTML ones are normalised): sources that differ only there are different templates
+    xml = ['<?xml version="1.0"?>\n<p>x\n</p>', '<?xml version="1.0"?>\r\n<p>x\r\n</p>', '<?xml version="1.0"?>\n<p>x\r\n</p>', '<?xml version="1.0"?>\r<p>x\r</p>',
+           '<?xml version="1.0"?>\n<p>x\n${1/0}</p>', '<?xml version="1.0"?>\r\n<p>x\r\n${1/0}</p>']
+    for b1, b2 in itertools.combinations(xml, 2):
+        ps.append(({'body': b1, 'kw': {}}, {'body': b2, 'kw': {}}, 'body (XML line ends)'))
     ps.append(({'body': '<b>${1}</b>', 'kw': {}, 'cls': 'PageTemplate'}, {'body': '<b>${1}</b>', 'kw': {}, 'cls': 'PageTextTemplate'}, 'class'))
     ps.append(({'body': '<b>${1 + 1}</b>', 'kw': {}, 'cls': 'PageTemplate'}, {'body': '<b>${1 + 1}</b>', 'kw': {}, 'cls': 'Sub'}, 'class (user subclass)'))
     ps.append(({'body': 'Hello ', 'kw': {}, 'cls': 'PageTemplate'}, {'body': 'Hello Page', 'kw': {}, 'cls': 'Template'}, 'body / class-name boundary'))
@@ -300,6 +307,11 @@ def pairs(rng, root):
         open(os.path.join(dd, 'main.pt'), 'w').write('<div tal:define="t load: inc.pt">${structure: t()}</div>')
         open(os.path.join(dd, 'inc.pt'), 'w').write('<b>%s</b>' % inc)
     ps.append(({'file': os.path.join(d1, 'main.pt'), 'kw': {}}, {'file': os.path.join(d2, 'main.pt'), 'kw': {}}, 'filename'))
+    # the same text under file names that differ in the extension only: an error report names the file it came from
+    for ext in ('pt', 'txt', 'html'):
+        open(os.path.join(d1, 'page.' + ext), 'w').write('<p>${1/0}</p>')
+    for e1, e2 in (('pt', 'txt'), ('txt', 'html'), ('pt', 'html')):
+        ps.append(({'file': os.path.join(d1, 'page.' + e1), 'kw': {}}, {'file': os.path.join(d1, 'page.' + e2), 'kw': {}}, 'filename (extension)'))
     return ps
 
 
